@@ -208,3 +208,5 @@ def run(ctx):
         ctx.violation(f"make_anomaly_intervals{tuple(g['interval']) + (g['m'],)} = {g['impl']} is not the list of inner intervals strictly inside the candidate with length >= m "
                       f"and >= m surrounding samples", g, {"what": "candidate-enumeration"})
     ctx.notes["candidate_grid"] = f"exhaustive: start 0..2, length 0..{12 if ctx.quick() else 21}, min_segment_length 1..5: {len(acases)} candidates"
+    from harness import helpers as _helpers
+    _helpers.cbs_helpers(ctx)
